@@ -154,9 +154,17 @@ def r3_insertion_rule(ctx):
               f.where(b), {'depth_test': depth, 'other_conditions': [show_atom(a) for a in foreign]})
     # the insert happens at the scanned position with the module itself
     ctx.check(peel(f.expr_operand(s.args[2], s.b, 'T'))[0] == 'arg', 'inserts-module', 'the new module is inserted at the scanned position', s.where())
-    # root-level / parentless modules are appended
+    # root-level / parentless modules are appended — and only those
     pushes = [x for x in f.calls() if x.name == 'std::vec::Vec::push']
     ctx.floor('append branches in ModuleTree::add', len(pushes), 2)
+    for x in pushes:
+        atoms = [a for _, a in f.guard_atoms(x.b)]
+        no_parent = any(a[0] == 'is' and a[2] == 'None' and a[1][0] == 'call' and a[1][1].endswith('ObjectPath::parent') for a in atoms)
+        root_parent = any(a[0] == 'bool' and a[2] is True and a[1][0] == 'call' and a[1][1].endswith('ObjectPath::is_root') for a in atoms)
+        extra = [a for a in atoms if a[0] in ('cmp', 'bool') and not (a[0] == 'bool' and a[1][0] == 'call' and a[1][1].endswith('ObjectPath::is_root'))]
+        ctx.check((no_parent or root_parent) and not extra, 'append-only-top-level',
+                  'a node is appended at the end of the module vector only if it has no parent or its parent is the root — every other node goes through the subtree scan',
+                  x.where(), [show_atom(a) for a in atoms])
 
 
 def r4_teardown(ctx):
@@ -171,6 +179,10 @@ def r4_teardown(ctx):
     n = len(f.loops_containing(s.b))
     ok, d = _module_seq_ok(f, s)
     ctx.check(n == 1 and ok, 'flat-in-order-loop', 'at_sim_end is invoked in one flat in-order loop over the module-tree vector (once per module)', s.where(), {'nesting': n, 'receiver': d})
+    # the loop is reached on every feasible path (shared with C13.R3)
+    from .C13 import teardown_reaches_all
+    teardown_reaches_all(ctx, 'C12.R4')
+    ctx.set_rule('C12.R4')
     bad = _reorder_ops(f)
     ctx.check(not bad, 'no-reorder-teardown', 'the module sequence is not reordered or pruned during tear-down', f.where(), [x.name for x in bad])
 
